@@ -30,6 +30,7 @@ using namespace draco;
 
 static const uint8_t kSentinel[3] = {0xA5, 0x5A, 0xC3};
 static long g_cov[16];
+static bool g_thorough = false;
 enum { COV_TAGGED, COV_RAW, COV_AUTO, COV_ENC_FAIL, COV_DEC_OK, COV_DEC_FAIL, COV_CREATE_FALSE, COV_OLDVER, COV_BIG };
 
 template <typename T>
@@ -47,6 +48,7 @@ static uint32_t boundary_max(Rng &r, int maxbits) {
   int64_t v = ((int64_t)1 << k) + r.range(-2, 2);
   if (v < 0) v = 0;
   if (v > ((int64_t)1 << maxbits)) v = (int64_t)1 << maxbits;
+  if (v > 0xffffffffll) v = 0xffffffffll;
   return (uint32_t)v;
 }
 
@@ -64,7 +66,7 @@ static std::vector<uint32_t> gen_syms(Rng &r, int kind, int n, uint32_t maxv) {
     case 5: { uint32_t a = (uint32_t)r.below((uint64_t)maxv + 1), b = maxv; int pct = (int)r.range(1, 99);
               for (auto &x : s) x = r.chance(pct) ? a : b; } break;
     case 6: for (auto &x : s) { uint64_t u = r.next(); int sh = (int)r.below(24); x = (uint32_t)((u >> 40 >> sh) % ((uint64_t)maxv + 1)); } break;
-    default: for (int i = 0; i < n; i++) { int k = i % 23; uint64_t v = k ? (((uint64_t)1 << (k - 1)) + r.below((uint64_t)1 << (k - 1))) : 0; s[i] = (uint32_t)std::min<uint64_t>(v, maxv); } break;
+    default: for (int i = 0; i < n; i++) { int k = i % 34; uint64_t v = k ? (((uint64_t)1 << (k - 1)) + r.below((uint64_t)1 << (k - 1))) : 0; s[i] = (uint32_t)std::min<uint64_t>(v, maxv); } break;
   }
   return s;
 }
@@ -312,6 +314,7 @@ static void adversarial_rse(Out &o, Rng &r, int N, int nm) {
     default: n = (int)r.range(2, 300); break;
   }
   if (n > 6000 && !r.chance(4)) n = (int)r.range(2, 3000);
+  if (n > 20000 && !(g_thorough && r.chance(10))) n = (int)r.range(10000, 20000);
   std::vector<uint64_t> f(n, 0);
   for (int i = 0; i < n; i++) {
     switch (kind) {
@@ -333,7 +336,7 @@ static void adversarial_rse(Out &o, Rng &r, int N, int nm) {
 
 int main(int argc, char **argv) {
   if (argc < 4) { fprintf(stderr, "usage: h_C08 quick|thorough seed out\n"); return 2; }
-  bool thorough = !strcmp(argv[1], "thorough");
+  bool thorough = !strcmp(argv[1], "thorough"); g_thorough = thorough;
   Rng r(strtoull(argv[2], 0, 10));
   Out o(argv[3]);
   o.note("C08 tier=" + std::string(argv[1]) + " seed=" + argv[2]);
@@ -349,8 +352,9 @@ int main(int argc, char **argv) {
     switch (r.below(6)) { case 0: groups = (int)r.range(1, 4); break; case 1: groups = (int)r.range(1, 40); break;
                           case 2: groups = (int)r.range(200, 1100); break; default: groups = (int)r.range(5, 300); break; }
     int n = groups * std::max(nc, 1);
-    int maxbits = r.chance(70) ? 10 : (r.chance(70) ? 16 : 20);
+    int maxbits = r.chance(65) ? 10 : (r.chance(60) ? 16 : (r.chance(50) ? 20 : 32));
     uint32_t maxv = boundary_max(r, maxbits);
+    if (maxbits == 32 && r.chance(50)) maxv = (uint32_t)(0x80000000ull + r.range(-3, 2));   // the 31/32-bit edge (D6)
     std::vector<uint32_t> s = gen_syms(r, kind, n, maxv);
     int forced = (int)r.range(-1, 1);
     int lvl = r.chance(15) ? -1 : (int)r.range(0, 10);
@@ -399,6 +403,16 @@ int main(int argc, char **argv) {
       adversarial_rse(o, r, N, 2);
     }
   }
+  // 4a. two-symbol tables with dyadic frequencies and 1..2 symbol messages: the final rANS state sweeps the
+  //     boundaries of write_end's 1/2/3-byte tails (state - l_rans_base = 2^6, 2^14 exactly among them)
+  for (int k = 1; k <= 8; k++)
+    for (int a = 1; a < (1 << k); a++) {
+      std::vector<uint64_t> f = {(uint64_t)a, (uint64_t)((1 << k) - a)};
+      int N = (a % 5 == 0) ? 9 : (a % 7 == 0 ? 10 : 1);
+      rse_case(o, r, N, f, std::vector<uint32_t>{0}, 0);
+      rse_case(o, r, N, f, std::vector<uint32_t>{1}, 0);
+      if (k <= 4) for (int m = 0; m < 4; m++) rse_case(o, r, N, f, std::vector<uint32_t>{(uint32_t)(m & 1), (uint32_t)(m >> 1)}, 0);
+    }
   // 4b. Create() on tables with very large / very uneven frequencies
   int n_create = thorough ? 4000 : 500;
   for (int i = 0; i < n_create; i++) {
